@@ -64,6 +64,10 @@ def generate(rng, tier):
     ops.append(scen.cmd(*final))
     ops.append(scen.gen_advance(rng))
     state = info["tree_state"]
+    if rng.random() < 0.25 and gen.tree_files(state):
+        # a partial (-sf) generation on top of the sealed tree: the tree stays sealed, patterns must survive
+        ops.append(scen.cmd("create", "@R", *gen.fmt_args(gen.pick_formats(rng, 1, 2)), "-sf", "@R/" + rng.choice(gen.tree_files(state))))
+        ops.append(scen.gen_advance(rng))
     muts = []
     n = rng.choice([0, 1, 1, 1, 2, 2, 3, 4])
     files = gen.tree_files(state)
@@ -174,7 +178,7 @@ def execute(sc, ctx):
     for name in ("verify", "diff", "create"):
         wc = core.clone_world(w, ctx.subdir())
         if name == "create":
-            last = [o for o in sc["ops"] if scen.is_cmd(o)][-1]["argv"]
+            last = [o for o in sc["ops"] if scen.is_cmd(o) and "-sf" not in o["argv"]][-1]["argv"]
             argv = ["create", wc.root] + [a for a in last[2:] if a != "-n"]
         else:
             argv = [name, wc.root]
@@ -220,9 +224,12 @@ def execute(sc, ctx):
             break
         # reported paths
         mism, missing, new = parse_reports(r.stderr + "\n" + r.stdout)
-        exp_mism = set(map(rel, content)) if name in ("verify", "create") else set()
-        exp_missing = set(map(rel, removed_f + removed_d))
-        exp_new = set(map(rel, added)) if name in ("verify", "diff") else set()
+        # the log lines separate fields by runs of blanks, so names are compared modulo surrounding white space
+        strip = lambda xs: {x.strip() for x in xs}
+        mism, missing, new = strip(mism), strip(missing), strip(new)
+        exp_mism = strip(map(rel, content)) if name in ("verify", "create") else set()
+        exp_missing = strip(map(rel, removed_f + removed_d))
+        exp_new = strip(map(rel, added)) if name in ("verify", "diff") else set()
         if mism != exp_mism:
             ctx.violate({"kind": "mismatch-report-differs", "cmd": name,
                          "cause": "not-reported" if exp_mism - mism else "false-report"},
@@ -246,8 +253,9 @@ def shrink_candidates(sc):
     for muts in ddmin_list(sc["mutations"]):
         yield dict(sc, mutations=muts)
     cmds = [i for i, o in enumerate(sc["ops"]) if scen.is_cmd(o)]
-    for ops in ddmin_list(sc["ops"][:-2]):
-        yield dict(sc, ops=ops + sc["ops"][-2:])
+    for ops in ddmin_list(sc["ops"]):
+        if any(scen.is_cmd(o) and "-sf" not in o["argv"] and o["argv"][1] == "@R" for o in ops):
+            yield dict(sc, ops=ops)
     protected = set()
     for o in sc["ops"] + sc["mutations"]:
         if scen.is_cmd(o):
